@@ -1,8 +1,579 @@
-//! C14 socket transports deliver exactly what was sent — not built yet.
+//! C14 — socket transports deliver exactly what was sent.
+//!
+//! Real loopback TCP / Unix stream / UDP sockets inside one compio runtime per
+//! program, both drivers (io_uring and polling, chosen per program through
+//! `ProactorBuilder::driver_type`). Three program families:
+//!
+//! * `stream` (`c14_stream.rs`): one connection, one or two directions. A
+//!   sender task performs a seeded sequence of send kinds (write, vectored,
+//!   write_all, zero-copy incl. deferred buffer futures, send_msg with
+//!   ancillary data, through borrowed/owned split halves), the *return values*
+//!   define what was accepted. The receiver reconstructs the stream with its
+//!   own mix (read, vectored, read_exact, managed, multishot with cancel+drain,
+//!   recv_msg variants). Content is a position-dependent pattern, so loss,
+//!   duplication and corruption are told apart with the offset. After
+//!   shutdown the receiver must see EOF after the last byte and not before.
+//! * `dgram` (`c14_dgram.rs`): UDP datagrams with unique ids from one or two
+//!   sender sockets; every received datagram is the prefix of exactly one sent
+//!   datagram, cut to the buffer capacity and never beyond (tail pattern of
+//!   the receive buffers must be intact), source address = sender's bound
+//!   address, MSG_TRUNC exactly where the call reports flags, no duplicates.
+//! * `accept` (`c14_accept.rs`): c concurrent connects carrying a nonce;
+//!   single accepts and multishot `incoming()` streams incl. cancelling /
+//!   dropping the stream midway and re-arming yield each nonce exactly once.
+//!
+//! Hangs are decided by logical quiescence (see `drive`), the wall-clock
+//! watchdog only ever produces `inconclusive`.
 
-use vcommon::Args;
+use std::{
+    cell::{Cell, RefCell},
+    collections::{BTreeMap, BTreeSet},
+    future::Future,
+    io,
+    num::NonZero,
+    os::fd::RawFd,
+    pin::{Pin, pin},
+    rc::Rc,
+    task::{Context, Poll, Waker},
+    time::{Duration, Instant},
+};
 
-pub fn main(_args: &Args) {
-    eprintln!("c14: not implemented");
-    std::process::exit(3);
+use compio_driver::{DriverType, ProactorBuilder};
+use compio_runtime::Runtime;
+use vcommon::{Args, Report, Rng, Value, json, panics};
+
+#[path = "c14_accept.rs"]
+mod accept;
+#[path = "c14_dgram.rs"]
+mod dgram;
+#[path = "c14_stream.rs"]
+mod stream;
+
+// ---------------------------------------------------------------- basics
+
+#[derive(Clone, Copy, PartialEq, Eq, Debug)]
+pub enum Drv {
+    Iour,
+    Poll,
+}
+
+impl Drv {
+    pub fn name(self) -> &'static str {
+        match self {
+            Drv::Iour => "iour",
+            Drv::Poll => "poll",
+        }
+    }
+
+    pub fn parse(s: &str) -> Drv {
+        if s == "poll" { Drv::Poll } else { Drv::Iour }
+    }
+
+    fn ty(self) -> DriverType {
+        match self {
+            Drv::Iour => DriverType::IoUring,
+            Drv::Poll => DriverType::Poll,
+        }
+    }
+}
+
+#[derive(Debug, Clone)]
+pub struct Fail {
+    pub sig: String,
+    pub what: String,
+}
+
+/// Per-program shared state of all harness tasks.
+#[derive(Default)]
+pub struct Ctx {
+    progress: Cell<u64>,
+    fail: RefCell<Option<Fail>>,
+    inconclusive: RefCell<Option<String>>,
+    pub counters: RefCell<BTreeMap<String, i64>>,
+    pub kinds: RefCell<BTreeSet<&'static str>>,
+    pub floors: RefCell<BTreeSet<&'static str>>,
+}
+
+impl Ctx {
+    pub fn tick(&self) {
+        self.progress.set(self.progress.get() + 1);
+    }
+
+    pub fn fail(&self, sig: String, what: String) {
+        let mut f = self.fail.borrow_mut();
+        if f.is_none() {
+            *f = Some(Fail { sig, what });
+        }
+        self.tick();
+    }
+
+    pub fn failed(&self) -> bool {
+        self.fail.borrow().is_some()
+    }
+
+    pub fn give_up(&self, why: String) {
+        let mut f = self.inconclusive.borrow_mut();
+        if f.is_none() {
+            *f = Some(why);
+        }
+        self.tick();
+    }
+
+    pub fn stopped(&self) -> bool {
+        self.failed() || self.inconclusive.borrow().is_some()
+    }
+
+    pub fn count(&self, name: &str, n: i64) {
+        *self.counters.borrow_mut().entry(name.to_string()).or_insert(0) += n;
+    }
+
+    pub fn kind(&self, k: &'static str) {
+        self.kinds.borrow_mut().insert(k);
+    }
+
+    pub fn floor(&self, k: &'static str) {
+        self.floors.borrow_mut().insert(k);
+    }
+}
+
+/// Position-dependent content: byte `o` of the stream / datagram `salt`.
+pub fn pat(salt: u64, o: u64) -> u8 {
+    let w = o / 7;
+    let x = (w ^ salt).wrapping_mul(0x9E37_79B9_7F4A_7C15);
+    let x = x ^ (x >> 29);
+    (x >> ((o % 7) * 8)) as u8
+}
+
+pub fn pat_vec(salt: u64, off: usize, len: usize) -> Vec<u8> {
+    (0..len).map(|i| pat(salt, (off + i) as u64)).collect()
+}
+
+/// Content of untouched receive-buffer memory.
+pub fn tail(i: usize) -> u8 {
+    0xC3 ^ (i as u8).wrapping_mul(0x3D)
+}
+
+/// A `Vec<u8>` whose whole capacity holds the tail pattern and whose length
+/// is `len` ("QBuf"): after an I/O that reported `n` bytes everything from
+/// `max(n, ..)` on must still be the pattern.
+pub fn qvec(cap: usize, len: usize) -> Vec<u8> {
+    let mut v: Vec<u8> = Vec::with_capacity(cap);
+    let c = v.capacity();
+    unsafe {
+        let p = v.as_mut_ptr();
+        for i in 0..c {
+            p.add(i).write(tail(i));
+        }
+        v.set_len(len.min(c));
+    }
+    v
+}
+
+/// All `capacity` bytes of a `qvec` (they were all written by `qvec`).
+pub fn raw(v: &Vec<u8>) -> &[u8] {
+    unsafe { std::slice::from_raw_parts(v.as_ptr(), v.capacity()) }
+}
+
+/// First index in `from..capacity` that no longer holds the tail pattern.
+pub fn tail_damage(v: &Vec<u8>, from: usize) -> Option<usize> {
+    let r = raw(v);
+    (from.min(r.len())..r.len()).find(|&i| r[i] != tail(i))
+}
+
+/// Cut `len` into `k` consecutive part lengths at seeded cut points (parts may be empty).
+pub fn cut(len: usize, fr: &[u16]) -> Vec<usize> {
+    let mut cuts: Vec<usize> = fr.iter().map(|f| (len as u64 * *f as u64 / 65536) as usize).collect();
+    cuts.sort_unstable();
+    let mut out = Vec::with_capacity(cuts.len() + 1);
+    let mut prev = 0;
+    for c in cuts {
+        out.push(c - prev);
+        prev = c;
+    }
+    out.push(len - prev);
+    out
+}
+
+pub struct YieldNow(bool);
+
+impl Future for YieldNow {
+    type Output = ();
+
+    fn poll(mut self: Pin<&mut Self>, cx: &mut Context<'_>) -> Poll<()> {
+        if self.0 {
+            Poll::Ready(())
+        } else {
+            self.0 = true;
+            cx.waker().wake_by_ref();
+            Poll::Pending
+        }
+    }
+}
+
+pub async fn yields(ctx: &Ctx, n: usize) {
+    for _ in 0..n {
+        if ctx.stopped() {
+            return;
+        }
+        ctx.tick();
+        YieldNow(false).await;
+    }
+}
+
+/// Level-triggered flag for harness tasks of one runtime.
+#[derive(Default)]
+pub struct Event {
+    gen_: Cell<u64>,
+    wakers: RefCell<Vec<Waker>>,
+}
+
+impl Event {
+    pub fn notify(&self) {
+        self.gen_.set(self.gen_.get() + 1);
+        for w in self.wakers.borrow_mut().drain(..) {
+            w.wake();
+        }
+    }
+
+    pub fn generation(&self) -> u64 {
+        self.gen_.get()
+    }
+
+    /// Resolves once the generation differs from `seen`.
+    pub fn changed(&self, seen: u64) -> EventWait<'_> {
+        EventWait { ev: self, seen }
+    }
+}
+
+pub struct EventWait<'a> {
+    ev: &'a Event,
+    seen: u64,
+}
+
+impl Future for EventWait<'_> {
+    type Output = ();
+
+    fn poll(self: Pin<&mut Self>, cx: &mut Context<'_>) -> Poll<()> {
+        if self.ev.gen_.get() != self.seen {
+            Poll::Ready(())
+        } else {
+            self.ev.wakers.borrow_mut().push(cx.waker().clone());
+            Poll::Pending
+        }
+    }
+}
+
+pub fn poll_fd(fd: RawFd, events: i16) -> i16 {
+    if fd < 0 {
+        return 0;
+    }
+    let mut p = libc::pollfd { fd, events, revents: 0 };
+    let r = unsafe { libc::poll(&mut p, 1, 0) };
+    if r <= 0 { 0 } else { p.revents }
+}
+
+pub const POLLRDHUP: i16 = 0x2000;
+
+pub fn errname(e: &io::Error) -> String {
+    match e.raw_os_error() {
+        Some(c) => format!("os{c}"),
+        None => format!("{:?}", e.kind()),
+    }
+}
+
+pub fn is_cancelled(e: &io::Error) -> bool {
+    e.raw_os_error() == Some(libc::ECANCELED) || e.kind() == io::ErrorKind::Interrupted && e.raw_os_error().is_none()
+}
+
+// ---------------------------------------------------------------- runtime
+
+pub struct RtCfg {
+    pub drv: Drv,
+    pub pool_len: usize,
+    pub pool_size: u16,
+}
+
+pub fn build_rt(c: &RtCfg) -> io::Result<Runtime> {
+    let mut pb = ProactorBuilder::new();
+    pb.driver_type(c.drv.ty())
+        .buffer_pool_buffer_len(c.pool_len.max(1))
+        .buffer_pool_size(NonZero::new(c.pool_size.max(1)).unwrap());
+    let mut rb = Runtime::builder();
+    rb.with_proactor(pb);
+    rb.build()
+}
+
+pub enum Stall {
+    KeepWaiting,
+    Violation(Fail),
+    Inconclusive(String),
+}
+
+pub struct Limits {
+    /// Runtime iterations without any progress (nothing runnable, driver
+    /// polled with a non-zero timeout each time) before the stall analysis.
+    pub idle_iters: u32,
+    pub idle_wait: Duration,
+    pub watchdog: Duration,
+}
+
+/// `block_on` with logical stall detection. Returns `Some(output)` when the
+/// future finished; `None` when the program was stopped (`ctx.fail` /
+/// `ctx.inconclusive` say why).
+pub fn drive<F: Future>(
+    rt: &Runtime,
+    ctx: &Ctx,
+    lim: &Limits,
+    ext_progress: &dyn Fn() -> u64,
+    stall: &dyn Fn() -> Stall,
+    fut: F,
+) -> Option<F::Output> {
+    let start = Instant::now();
+    rt.enter(|| {
+        let waker = rt.waker();
+        let mut cx = Context::from_waker(&waker);
+        let mut fut = pin!(fut);
+        let mut idle = 0u32;
+        let mut last = (ctx.progress.get(), ext_progress());
+        loop {
+            if let Poll::Ready(v) = fut.as_mut().poll(&mut cx) {
+                rt.run();
+                return Some(v);
+            }
+            let remaining = rt.run();
+            if ctx.stopped() {
+                return None;
+            }
+            if start.elapsed() > lim.watchdog {
+                ctx.give_up("watchdog".into());
+                return None;
+            }
+            let now = (ctx.progress.get(), ext_progress());
+            if now != last {
+                last = now;
+                idle = 0;
+            } else if !remaining {
+                idle += 1;
+            }
+            if idle >= lim.idle_iters {
+                match stall() {
+                    Stall::KeepWaiting => idle = 0,
+                    Stall::Violation(f) => {
+                        ctx.fail(f.sig, f.what);
+                        return None;
+                    }
+                    Stall::Inconclusive(r) => {
+                        ctx.give_up(r);
+                        return None;
+                    }
+                }
+            }
+            rt.poll_with(Some(if remaining { Duration::ZERO } else { lim.idle_wait }));
+        }
+    })
+}
+
+// ---------------------------------------------------------------- programs
+
+pub enum Prog {
+    Stream(stream::StreamProg),
+    Dgram(dgram::DgramProg),
+    Accept(accept::AcceptProg),
+}
+
+impl Prog {
+    fn to_json(&self) -> Value {
+        match self {
+            Prog::Stream(p) => p.to_json(),
+            Prog::Dgram(p) => p.to_json(),
+            Prog::Accept(p) => p.to_json(),
+        }
+    }
+
+    fn from_json(v: &Value) -> Option<Prog> {
+        match v["family"].as_str()? {
+            "stream" => Some(Prog::Stream(stream::StreamProg::from_json(v)?)),
+            "dgram" => Some(Prog::Dgram(dgram::DgramProg::from_json(v)?)),
+            "accept" => Some(Prog::Accept(accept::AcceptProg::from_json(v)?)),
+            _ => None,
+        }
+    }
+}
+
+/// What one executed program reports back.
+pub struct Outcome {
+    /// diversity signature (transport, driver, kinds, partial?)
+    pub sig: String,
+    pub ctx: Rc<Ctx>,
+}
+
+pub fn ju(v: &Value, k: &str) -> usize {
+    v[k].as_u64().unwrap_or(0) as usize
+}
+
+pub fn jb(v: &Value, k: &str) -> bool {
+    v[k].as_bool().unwrap_or(false)
+}
+
+pub fn js<'a>(v: &'a Value, k: &str) -> &'a str {
+    v[k].as_str().unwrap_or("")
+}
+
+fn run_prog(p: &Prog, lim: &Limits) -> Outcome {
+    match p {
+        Prog::Stream(p) => stream::run(p, lim),
+        Prog::Dgram(p) => dgram::run(p, lim),
+        Prog::Accept(p) => accept::run(p, lim),
+    }
+}
+
+fn execute(p: &Prog, lim: &Limits, rep: &mut Report) {
+    let pj = p.to_json();
+    let r = panics::catch(|| run_prog(p, lim));
+    let tag = format!("{}/{}/{}", js(&pj, "family"), js(&pj, "transport"), js(&pj, "driver"));
+    match r {
+        Err(info) => match info.origin() {
+            panics::Origin::Repo(_) => {
+                rep.eval(Some(format!("{tag}/panic")));
+                rep.violation(
+                    &format!("C14/panic/{tag}/{}", info.sig()),
+                    &format!("panic inside compio at {}:{}: {}", info.file, info.line, info.message),
+                    pj,
+                );
+            }
+            o => {
+                rep.eval(None);
+                rep.inconclusive(&format!("harness-panic {o:?}: {}", info.message));
+            }
+        },
+        Ok(out) => {
+            let ctx = out.ctx;
+            rep.eval(Some(out.sig));
+            for (k, v) in ctx.counters.borrow().iter() {
+                rep.count(k, *v);
+            }
+            for k in ctx.floors.borrow().iter() {
+                rep.floor(k, true);
+            }
+            if let Some(f) = ctx.fail.borrow().as_ref() {
+                rep.violation(&f.sig, &f.what, pj.clone());
+            } else if let Some(r) = ctx.inconclusive.borrow().as_ref() {
+                rep.inconclusive(&format!("{tag}: {r}"));
+                if rep.want_sample() {
+                    rep.sample(json!({"inconclusive": r, "program": pj}));
+                }
+            } else if rep.want_sample() {
+                rep.sample(pj);
+            }
+        }
+    }
+}
+
+const FLOORS: &[&str] = &[
+    "stream-partial-send",
+    "stream-eof-after-last-byte",
+    "stream-multishot-recv",
+    "stream-managed-recv",
+    "stream-zerocopy-send",
+    "stream-ancillary",
+    "stream-split-halves",
+    "stream-thread-peer",
+    "dgram-truncated-flagged",
+    "dgram-source-address",
+    "dgram-multishot-recv",
+    "accept-multishot",
+    "accept-multishot-rearm",
+    "accept-single",
+];
+
+pub fn main(args: &Args) {
+    let leg = args.str("leg", "plain");
+    let mut rep = Report::from_args("C14", &leg, args);
+    for f in FLOORS {
+        rep.floor(f, false);
+    }
+    let thorough = args.thorough();
+    let lim = Limits {
+        idle_iters: args.usize("idle-iters", 40) as u32,
+        idle_wait: Duration::from_millis(args.u64("idle-wait-ms", 5)),
+        watchdog: Duration::from_millis(args.u64("watchdog-ms", if thorough { 60_000 } else { 30_000 })),
+    };
+    // SIGPIPE must not kill us when a peer goes away early.
+    unsafe { libc::signal(libc::SIGPIPE, libc::SIG_IGN) };
+
+    if let Some(path) = args.get("replay") {
+        let text = std::fs::read_to_string(path).expect("replay file");
+        let v: Value = vcommon::serde_json::from_str(&text).expect("replay json");
+        match Prog::from_json(&v["program"]) {
+            Some(p) => execute(&p, &lim, &mut rep),
+            None => rep.inconclusive("replay: cannot parse program"),
+        }
+        rep.finish();
+        return;
+    }
+
+    // Driver availability (io_uring may be unavailable in a sandbox).
+    let mut drivers = Vec::new();
+    for d in [Drv::Iour, Drv::Poll] {
+        match build_rt(&RtCfg { drv: d, pool_len: 4096, pool_size: 4 }) {
+            Ok(_) => drivers.push(d),
+            Err(e) => {
+                rep.inconclusive(&format!("driver {} unavailable: {e}", d.name()));
+            }
+        }
+    }
+    if let Some(only) = args.get("driver") {
+        drivers.retain(|d| d.name() == only);
+    }
+    if drivers.is_empty() {
+        rep.inconclusive("no driver available");
+        rep.finish();
+        return;
+    }
+    let family = args.str("family", "all");
+    let scale = args.usize("scale", if thorough { 2 } else { 1 });
+    let v6 = std::net::UdpSocket::bind("[::1]:0").is_ok();
+    let fds0 = count_fds();
+
+    let iters = args.iters(600, 6000);
+    let base = Rng::new(args.seed()).fork(args.shard() + 1);
+    for i in 0..iters {
+        if rep.out_of_time() {
+            break;
+        }
+        let mut r = base.fork(i as u64);
+        let drv = drivers[(i + args.shard() as usize) % drivers.len()];
+        let g = GenCfg { drv, scale, v6 };
+        let fam = match family.as_str() {
+            "stream" => 0,
+            "dgram" => 70,
+            "accept" => 90,
+            _ => r.below(100),
+        };
+        let p = if fam < 66 {
+            Prog::Stream(stream::generate(&mut r, &g))
+        } else if fam < 85 {
+            Prog::Dgram(dgram::generate(&mut r, &g))
+        } else {
+            Prog::Accept(accept::generate(&mut r, &g))
+        };
+        execute(&p, &lim, &mut rep);
+    }
+    let fds1 = count_fds();
+    rep.max("fd-growth-over-run", fds1 as i64 - fds0 as i64);
+    rep.note(format!(
+        "drivers={:?} ipv6={v6} unix-datagram: not offered by compio-net (UnixSocket is stream-only)",
+        drivers.iter().map(|d| d.name()).collect::<Vec<_>>()
+    ));
+    rep.finish();
+}
+
+pub struct GenCfg {
+    pub drv: Drv,
+    pub scale: usize,
+    pub v6: bool,
+}
+
+fn count_fds() -> usize {
+    std::fs::read_dir("/proc/self/fd").map(|d| d.count()).unwrap_or(0)
 }
